@@ -130,7 +130,7 @@ def _mk(inp, selfid, members, clock, dyn):
     return o, tr, cons
 
 
-@obligation('S12', props=('C09', 'C01', 'C10', 'C06'), quick=[dict(n=2), dict(n=3)], thorough=[dict(n=2), dict(n=3), dict(n=4)], stubs=_STUBS,
+@obligation('S12', props=('C09', 'C01', 'C10', 'C06', 'C18'), quick=[dict(n=2), dict(n=3)], thorough=[dict(n=2), dict(n=3), dict(n=4)], stubs=_STUBS,
             bounds='log of n<=4 entries (first index 1..3), any applied/commit index, symbolic user state (int, list of 2, two consumers), dynamic membership on/off, commands applied between the snapshot and the trim')
 def S12(inp, n):
     """compaction captures the state at the applied position: the image holds the user attributes and every consumer as
